@@ -192,6 +192,19 @@ CLAIMED = {
         note="Known findings F10 (line break after an aliquot chain fuses) and F12 (ALL counts only when last) are listed in "
              "known_findings.json. Conflicting acreages for one lot are outside the claim (R3).",
         design_ref="§5.4, §6 C06"),
+    "C07": dict(
+        technique="TLA+ grammar of spelling classes / joiners with the bare-quarter recognition rule, enumerated by TLC; "
+                  "each written chain rendered and compared with its canonical symbol text; TLC trace validation of normal "
+                  "form, result equality, fixed point and the bare-quarter rule (model bound as drift)",
+        text="TLC enumerates every sequence of (half | quarter) x spelling class (symbol, /2, bare 2, 1/2, word, word + "
+             "fraction, 'One Half', bare quarter) x joiner (none, blank, of, of the) x clean_qq respecting the glue rule; each is "
+             "rendered with a random concrete spelling per class and distinct directions; TLC checks on the observation: "
+             "normalised text = the canonical symbols, lots / aliquots / whole aliquots identical to the canonical spelling "
+             "under 5 configurations, normalising and parsing the normalised text changes nothing, a bare quarter is an "
+             "aliquot only under clean_qq or after a half; the model's exact prediction for bare quarters is bound as drift.",
+        note="Trusted: the spelling tables in harness/drivers/c07.py. Chains of up to 3 components (all 1-2 component "
+             "writings, a sample of the 3-component ones in the quick tier).",
+        design_ref="§5.5, §6 C07"),
 }
 
 NOT_APPLICABLE = {
